@@ -251,7 +251,7 @@ def run(chk, tier, prop):
     CH = 4000
     models = []
     for a in range(0, len(kept), CH):
-        models += lib.model_run("loop", [model_case(c) for c in kept[a:a + CH]])
+        models += lib.model_run_tolerant("loop", [model_case(c) for c in kept[a:a + CH]], timeout=60, floor=8)
     verdicts = []
     for a in range(0, len(kept), CH):
         verdicts += monitor(MON[prop], [i[1] for i in impl[a:a + CH]])
@@ -272,6 +272,12 @@ def run(chk, tier, prop):
             chk.violation(key, "%s monitor rejects the implementation's own trace at event %d (%s): %s" % (
                 prop, idx, EV.get(ires[1][idx][0]), ires[1][idx]),
                 dict(kind="loop", prop=prop, case=small, rejected_index=idx, trace=pretty(ires[1], idx)), found=True)
+            nbad += 1
+        elif m is None:
+            chk.violation("corr:%s" % prop,
+                          "the implementation finishes a session on which the proved model, given fuel for the implementation's trace "
+                          "length, gives no answer in time (it diverges there): implementation and model disagree",
+                          dict(kind="loop", prop=prop, case=c, impl=pretty(project(prop, i)[1])[:200], outcomes=[i[0], None]), found=False)
             nbad += 1
         elif prop == "C09" and i[0] != m[0] and i[0] and i[0][-1] == 4 and m[0] and m[0][-1] in (0, 1) and \
                 any(e[0] == 5 and e[3] == [1] for e in i[1]) and not any(e[0] == 15 for e in i[1][max(k for k, e in enumerate(i[1]) if e[0] == 5 and e[3] == [1]):]):
